@@ -100,7 +100,11 @@ ExactPermuteV(c, r) == ExactPermuteV2(c, r, Magnified(c.s))
 \* factor sets, "i64/f64h" = integer first set, second set halved (half-integer floats): same cosines.
 TolQ(t) == CASE t = 1 -> 10 [] t = 2 -> 1000 [] OTHER -> 0                 \* units of 1e-6
 \* "F/str": first set Fortran-ordered, second a non-contiguous view; "ro/ro": read-only arrays -- layout is not a value
-CorrOptCombos == ({1, 2} \X {"f32", "f64"} \X {FALSE}) \cup ({0} \X {"f32", "F/str", "ro/ro"} \X {FALSE}) \cup ({0} \X {"i64/f64h"} \X BOOLEAN)
+\* "pos" / "kw": every argument positional / by its published name; "negzero" / "subnormal": zeros spelled -0.0 / 5e-324;
+\* "afterfail": the same objects, right after a call on them that raised (invalid method / mismatched lists)
+ExtraForms == {"pos", "kw", "negzero", "subnormal", "afterfail"}
+ExtraOn(c) == (c.R + c.M + c.s) % 2 = 0            \* the extra forms and the aliasing calls are rotated over the configurations
+CorrOptCombos == ({1, 2} \X {"f32", "f64"} \X {FALSE}) \cup ({0} \X ({"f32", "F/str", "ro/ro"} \cup ExtraForms) \X {FALSE}) \cup ({0} \X {"i64/f64h"} \X BOOLEAN)
 ValTol(dt) == IF dt = "f32" THEN 5 ELSE ExactTol
 CorrOptV(c, r, nums, stackedCover, bs) ==      \* bs: the float64 / default-tol stacked score of the same sets
     LET den == 2 * c.R * L
@@ -127,21 +131,32 @@ CorrOptV(c, r, nums, stackedCover, bs) ==      \* bs: the float64 / default-tol 
     ELSE IF AbsI(r.val - want) > ValTol(r.dt) THEN "CorrOptValue"
     ELSE "ok"
 \* mixed dtypes between the two arguments: the metric is a function of the VALUES
-CongMixes == {"i64/f64h", "f32/f64", "F/str", "ro/ro"} \X BOOLEAN
+CongMixes == ({"i64/f64h", "f32/f64", "F/str", "ro/ro"} \X BOOLEAN) \cup (ExtraForms \X {FALSE})
 PermuteMixes == {<<"A", "B", "i64/f64h">>, <<"B", "A", "i64/f64h">>, <<"A", "B", "F/str">>, <<"A", "B", "ro/ro">>}
+                \cup {<<"A", "B", f>> : f \in {"pos", "kw", "afterfail"}}
+\* ALIASING: the first set passed as BOTH arguments (one list object / one CP tensor): congruence 1 with the identity,
+\* correlation index 0, cp_permute_factors returns an unpermuted tensor that is not a view of its argument
+SelfV(c, sf) ==
+    LET c2 == [c EXCEPT !.B = c.A, !.b = c.a, !.p = IdPerm(c.R), !.s = 0] IN
+    With(ExactCongV(c2, sf.cong), LAMBDA v1 :
+      IF v1 # "ok" THEN "Self" \o v1
+      ELSE IF DOMAIN sf.corr # Methods THEN "SelfCorrMethods"
+      ELSE IF \E m \in Methods : ~IsFin(sf.corr[m]) \/ sf.corr[m] < 0 \/ sf.corr[m] > ZeroTol THEN "SelfCorrNotZero"
+      ELSE With(ExactPermuteV2(c2, sf.permute, FALSE), LAMBDA v2 : IF v2 # "ok" THEN "Self" \o v2 ELSE "ok"))
 OptsV(c, o, bs) ==
     IF c.s > 3 THEN (IF o.cong = <<>> /\ o.corr = <<>> /\ o.permute = <<>> THEN "ok" ELSE "OptForms")
     ELSE IF {<<o.corr[k].tol, o.corr[k].dt, o.corr[k].swap, o.corr[k].method>> : k \in DOMAIN o.corr}
-              # {<<t[1], t[2], t[3], m>> : t \in CorrOptCombos, m \in Methods} THEN "OptForms"
-    ELSE IF {<<o.cong[k].mix, o.cong[k].swap>> : k \in DOMAIN o.cong} # CongMixes THEN "OptForms"
-    ELSE IF {<<o.permute[k].ref, o.permute[k].target, o.permute[k].mix>> : k \in DOMAIN o.permute} # PermuteMixes THEN "OptForms"
+              # {<<t[1], t[2], t[3], m>> : t \in {u \in CorrOptCombos : u[2] \in ExtraForms => ExtraOn(c)}, m \in Methods} THEN "OptForms"
+    ELSE IF {<<o.cong[k].mix, o.cong[k].swap>> : k \in DOMAIN o.cong} # {u \in CongMixes : u[1] \in ExtraForms => ExtraOn(c)} THEN "OptForms"
+    ELSE IF {<<o.permute[k].ref, o.permute[k].target, o.permute[k].mix>> : k \in DOMAIN o.permute} # {u \in PermuteMixes : u[3] \in ExtraForms => ExtraOn(c)} THEN "OptForms"
     ELSE With([m \in 1..c.M |-> CorrNum(CosMat(c.A[m], c.B[m], TRUE), L)], LAMBDA nums :
          With(CoverBoth(StackRows(c.A, c.M), StackRows(c.B, c.M)), LAMBDA sc :
          With(FirstBad([k \in DOMAIN o.corr |-> CorrOptV(c, o.corr[k], nums, sc, bs)]), LAMBDA v1 :
            IF v1 # "ok" THEN v1
            ELSE With(FirstBad([k \in DOMAIN o.cong |-> ExactCongV(c, o.cong[k])]), LAMBDA v2 :
                 IF v2 # "ok" THEN v2
-                ELSE FirstBad([k \in DOMAIN o.permute |-> ExactPermuteV2(c, o.permute[k], o.permute[k].mix = "i64/f64h")])))))
+                ELSE With(FirstBad([k \in DOMAIN o.permute |-> ExactPermuteV2(c, o.permute[k], o.permute[k].mix = "i64/f64h")]), LAMBDA v3 :
+                     IF v3 # "ok" \/ ~ExtraOn(c) THEN v3 ELSE SelfV(c, o.self))))))
 
 ExactV(e) ==
     LET c == e.cfg IN
@@ -304,6 +319,7 @@ MetricV(e) ==
              os == MetricOutShape(c.shape, ax) IN
          IF ~(IsIntSeq(e.x, n) /\ IsIntSeq(e.y, n)) THEN "InDomain"
          ELSE IF \E k \in 1..n : AbsI(e.x[k]) > MaxVal \/ AbsI(e.y[k]) > MaxVal THEN "InDomain"
+         ELSE IF c.same /\ e.y # e.x THEN "InDomain"          \* same: one array object passed twice
          ELSE IF e.out.raised THEN "Raised"
          ELSE IF e.out.shape # os THEN "Shape"
          ELSE IF DOMAIN e.out.vals # 1..Size(os) THEN "Shape"
